@@ -549,7 +549,7 @@ fn run_history<KD: Kind>(kd: &KD, rng: &mut Rng, hno: usize) -> String {
     let mut d = Driver {
         kd, conc, cache, tp, index, ksize,
         now: 0, ttl: ttl0, clock: 0, stamp: HashMap::new(), ideal: HashMap::new(), live: BTreeMap::new(),
-        why: vec![], next_id: (hno as u64) * 1000 + 1,
+        why: vec![], next_id: 1 + (hno as u64 % 3) * 100,
         evictions: 0, expirations: 0, replacements: 0, rejected: 0, stale_seen: 0, hits_seen: 0, accepted: None,
     };
     // the "file system": current metadata of every file
